@@ -1,9 +1,230 @@
-// Package c17: check for property C17 (stub until implemented).
+// Package c17: only valid curve points are accepted; point arithmetic and encodings are exact (ENUM).
+//
+// Three enumerations, all against the independent curve arithmetic in verif/internal/ref:
+//   - doors.go:  every decoder/constructor ("door") x both curves x an explicit alphabet of coordinate
+//     pairs derived from base points (perturbed, swapped, +p, -p, negated, truncation aliases, the other
+//     curve's generator, (0,0), nil) -> accepted iff canonical-and-on-curve; accepted points re-encode
+//     to the same coordinates and curve; encodings of valid points round-trip.
+//   - arith.go:  Add / ScalarMult / ScalarBaseMult vs ref on all ordered pairs of 12 points x a scalar
+//     alphabet, group laws on the same sets, EightInvEight on (prime-order point + each torsion point).
+//   - a separated sub-check for operations whose true result is the identity on secp256k1 (keys
+//     c06-overlap/...).
 package c17
 
-import "verif/internal/core"
+import (
+	"crypto/elliptic"
+	"fmt"
+	"math/big"
+	"sync/atomic"
+
+	"github.com/bnb-chain/tss-lib/v2/tss"
+
+	"verif/internal/core"
+	"verif/internal/ref"
+)
 
 // Implemented reports whether this check is built.
-const Implemented = false
+const Implemented = true
 
-func Run(r *core.Run) { r.Cap("not implemented") }
+type curveCtx struct {
+	name    string
+	regName tss.CurveName
+	ec      elliptic.Curve
+	rc      *ref.Curve
+	p, q    *big.Int
+	other   *curveCtx
+}
+
+type namedPoint struct {
+	name string
+	pt   ref.Point
+}
+
+type namedInt struct {
+	name string
+	v    *big.Int
+}
+
+var evals int64
+
+func ev(r *core.Run, caseKey string) {
+	atomic.AddInt64(&evals, 1)
+	r.Distinct("cases", caseKey)
+}
+
+func bi(i int64) *big.Int { return big.NewInt(i) }
+
+func pow2(n uint) *big.Int { return new(big.Int).Lsh(bi(1), n) }
+
+func generic(label string, nbytes int) *big.Int {
+	return new(big.Int).SetBytes(core.Bytes(label, nbytes))
+}
+
+func istr(v *big.Int) string {
+	if v == nil {
+		return "nil"
+	}
+	return v.String()
+}
+
+// guard runs f and turns a panic of the code under test into a violation `<key>:panic`.
+func guard(r *core.Run, key string, rec interface{}, f func()) (ok bool) {
+	defer func() {
+		if e := recover(); e != nil {
+			r.Violate(key+":panic", fmt.Sprintf("panic in the code under test: %v", e), rec)
+			ok = false
+		}
+	}()
+	f()
+	return true
+}
+
+// ---- points with tiny coordinates (computed here from the curve equations, validated with ref.OnCurve) ----
+
+// secpFromY: x with x^3 = y^2 - 7; p = 7 mod 9 so a cube root of a cubic residue a is a^((p+2)/9).
+func secpFromY(y *big.Int) (ref.Point, bool) {
+	c := ref.Secp256k1
+	a := new(big.Int).Mod(new(big.Int).Sub(new(big.Int).Mul(y, y), c.B), c.P)
+	e := new(big.Int).Div(new(big.Int).Add(c.P, bi(2)), bi(9))
+	x := new(big.Int).Exp(a, e, c.P)
+	if !c.OnCurve(x, y) {
+		return ref.Point{}, false
+	}
+	return ref.Point{X: x, Y: new(big.Int).Set(y)}, true
+}
+
+func edSqrtRatio(c *ref.Curve, num, den *big.Int) *big.Int {
+	inv := new(big.Int).ModInverse(new(big.Int).Mod(den, c.P), c.P)
+	if inv == nil {
+		return nil
+	}
+	v := new(big.Int).Mod(new(big.Int).Mul(new(big.Int).Mod(num, c.P), inv), c.P)
+	return new(big.Int).ModSqrt(v, c.P)
+}
+
+// edFromX: y^2 = (1 + x^2) / (1 - d x^2)
+func edFromX(x *big.Int) (ref.Point, bool) {
+	c := ref.Ed25519
+	x2 := new(big.Int).Mul(x, x)
+	y := edSqrtRatio(c, new(big.Int).Add(bi(1), x2), new(big.Int).Sub(bi(1), new(big.Int).Mul(c.D, x2)))
+	if y == nil || !c.OnCurve(x, y) {
+		return ref.Point{}, false
+	}
+	return ref.Point{X: new(big.Int).Set(x), Y: y}, true
+}
+
+// edFromY: x^2 = (y^2 - 1) / (d y^2 + 1)
+func edFromY(y *big.Int) (ref.Point, bool) {
+	c := ref.Ed25519
+	y2 := new(big.Int).Mul(y, y)
+	x := edSqrtRatio(c, new(big.Int).Sub(y2, bi(1)), new(big.Int).Add(new(big.Int).Mul(c.D, y2), bi(1)))
+	if x == nil || !c.OnCurve(x, y) {
+		return ref.Point{}, false
+	}
+	return ref.Point{X: x, Y: new(big.Int).Set(y)}, true
+}
+
+func firstN(n int, from int64, f func(*big.Int) (ref.Point, bool)) []ref.Point {
+	var out []ref.Point
+	for v := from; len(out) < n && v < from+4096; v++ {
+		if p, ok := f(bi(v)); ok {
+			out = append(out, p)
+		}
+	}
+	return out
+}
+
+// arithPoints: the 12 points used for arithmetic (and as base points of the doors).
+func arithPoints(cv *curveCtx) []namedPoint {
+	c := cv.rc
+	g := func(label string) namedPoint {
+		k := new(big.Int).Mod(generic("c17/point/"+cv.name+"/"+label, 40), cv.q)
+		return namedPoint{"generic-" + label + "*G", c.BaseMul(k)}
+	}
+	pts := []namedPoint{
+		{"G", c.G()},
+		{"2G", c.BaseMul(bi(2))},
+		{"3G", c.BaseMul(bi(3))},
+		{"(q-1)G", c.BaseMul(new(big.Int).Sub(cv.q, bi(1)))},
+		g("a"), g("b"), g("c"),
+	}
+	if !c.Edwards {
+		tx := firstN(3, 1, func(x *big.Int) (ref.Point, bool) { return c.LiftX(x, uint(x.Bit(0))) })
+		ty := firstN(2, 1, secpFromY)
+		for i, p := range tx {
+			pts = append(pts, namedPoint{fmt.Sprintf("tiny-x#%d", i), p})
+		}
+		for i, p := range ty {
+			pts = append(pts, namedPoint{fmt.Sprintf("tiny-y#%d", i), p})
+		}
+	} else {
+		tx := firstN(2, 1, edFromX)
+		ty := firstN(1, 2, edFromY)
+		for i, p := range tx {
+			pts = append(pts, namedPoint{fmt.Sprintf("tiny-x#%d", i), p})
+		}
+		for i, p := range ty {
+			pts = append(pts, namedPoint{fmt.Sprintf("tiny-y#%d", i), p})
+		}
+		tor := c.TorsionEd()
+		pts = append(pts, namedPoint{"order8-T", tor[1]})
+		pts = append(pts, namedPoint{"G+T", c.Add(c.G(), tor[1])})
+	}
+	return pts
+}
+
+// doorBasePoints: arithmetic points plus, on edwards25519, the neutral element and small-order points.
+func doorBasePoints(cv *curveCtx, tier string) []namedPoint {
+	pts := arithPoints(cv)
+	if tier == "thorough" {
+		for i := 0; i < 8; i++ {
+			k := new(big.Int).Mod(generic(fmt.Sprintf("c17/doorpoint/%s/%d", cv.name, i), 40), cv.q)
+			pts = append(pts, namedPoint{fmt.Sprintf("generic-d%d*G", i), cv.rc.BaseMul(k)})
+		}
+	}
+	if cv.rc.Edwards {
+		tor := cv.rc.TorsionEd()
+		pts = append(pts, namedPoint{"neutral(0,1)", tor[0]}, namedPoint{"order2(0,p-1)", tor[4]}, namedPoint{"order4", tor[2]})
+	}
+	return pts
+}
+
+func Run(r *core.Run) {
+	secp := &curveCtx{name: "secp256k1", regName: tss.Secp256k1, ec: tss.S256(), rc: ref.Secp256k1}
+	ed := &curveCtx{name: "ed25519", regName: tss.Ed25519, ec: tss.Edwards(), rc: ref.Ed25519}
+	secp.other, ed.other = ed, secp
+	curves := []*curveCtx{secp, ed}
+	for _, cv := range curves {
+		cv.p, cv.q = new(big.Int).Set(cv.rc.P), new(big.Int).Set(cv.rc.N)
+		pr := cv.ec.Params()
+		if pr.P.Cmp(cv.p) != 0 || pr.N.Cmp(cv.q) != 0 || pr.Gx.Cmp(cv.rc.Gx) != 0 || pr.Gy.Cmp(cv.rc.Gy) != 0 {
+			r.Violate("setup/curve-parameters-differ/"+cv.name, "library curve parameters (p, q, G) differ from the reference curve", nil)
+			return
+		}
+		for _, np := range doorBasePoints(cv, r.Tier) {
+			if !cv.rc.OnCurve(np.pt.X, np.pt.Y) {
+				panic("c17: internal error, base point off curve: " + np.name)
+			}
+		}
+		if n := len(arithPoints(cv)); n != 12 {
+			panic(fmt.Sprintf("c17: internal error, %d arithmetic points on %s", n, cv.name))
+		}
+	}
+	defer tss.SetCurve(tss.S256())
+
+	registryCheck(r, curves)
+	doorsCheck(r, curves)
+	roundTrips(r, curves)
+	arithCheck(r, curves)
+	cofactorCheck(r, ed)
+	identityOverlap(r, curves)
+
+	r.Set("evaluations", int(atomic.LoadInt64(&evals)))
+	r.Set("distinct_nontrivial", r.NDistinct("cases"))
+	r.Set("rule", "doors: door x curve x base point x coordinate alteration (one case each; expected verdict = ref.OnCurve on the literal integers, i.e. canonical and on the curve); "+
+		"round trips: encoding x curve x valid point; arithmetic: op x curve x ordered point pair / point x scalar, group laws per pair / triple / (pair,scalar) / (point,scalar pair); "+
+		"cofactor: (prime-order point, torsion point) pairs; identity sub-check: op x curve x input. Distinct = distinct canonical case strings; every case runs library code on a different input.")
+	r.Assume("arithmetic comparisons exclude inputs whose true result is the identity on secp256k1 (ECPoint cannot represent it; C06 owns those) - they are exercised only in the c06-overlap sub-check")
+	r.Assume("GobDecode and JSON without a curve name use the process-wide tss.EC(); those doors are exercised with tss.SetCurve(<the stated curve>)")
+	r.Assume("message-level doors take byte strings, so negative and nil coordinates are not expressible there and are skipped for them")
+}
